@@ -16,7 +16,8 @@ EXPLANATION = (
     "Static analysis of every except-handler in garbage_collector.py: each handler guarding a storage read / list / stat "
     "must raise GarbageCollectionAborted or be one of the frozen conservative shapes, whose conservative effect is itself "
     "checked (age_ok forced True, protection re-added, nothing deleted); all abort sites and the marker load dominate "
-    "the first delete-capable call; the escaping-path test dominates the membership test and raises.")
+    "the first delete-capable call; the escaping-path test dominates the membership test and raises."
+    " Also: (R5) no skip path in the reachability loops; (R6) no fail-open version resolution under the collector's metadata read.")
 NOT_DECIDED = "run-time fault enumeration; corruption classes of files that still parse"
 
 GC = "garbage_collector.GarbageCollector"
